@@ -75,6 +75,14 @@ func spacingSlot(text []byte, off int) string {
 		if off > ranges[i][0] {
 			return "inside-" + cfgcorpus.TokName(toks[i].Type)
 		}
+		if toks[i].Type == hclsyntax.TokenEOF {
+			// the blanks between the last token (or the start of the file)
+			// and the end of the file
+			if i == 0 {
+				return "blanks-before-eof.file-without-tokens"
+			}
+			return "blanks-before-eof.after-" + cfgcorpus.TokName(toks[i-1].Type)
+		}
 		lineStart := i == 0 || toks[i-1].Type == hclsyntax.TokenNewline ||
 			(toks[i-1].Type == hclsyntax.TokenComment && strings.HasSuffix(toks[i-1].Bytes, "\n"))
 		switch {
@@ -103,9 +111,26 @@ func firstDiff(a, b []byte) int {
 	return n
 }
 
+// judge applies the oracle to the case's text. A leading UTF-8 byte order mark
+// is not a token and not spacing between tokens: whether Format keeps or drops
+// it is not specified, and nothing below looks at those three bytes (token
+// sequences, parsing and evaluation are blind to them, and the fixpoint clause
+// compares Format's output with Format of that output, whatever it starts
+// with). When a text with a BOM fails and the same text without it does not,
+// the class says so: the BOM is then the construct the failure depends on.
 func judge(c engine.Case) engine.Outcome {
 	d := c.Data.(Data)
-	src := []byte(d.Src)
+	o := judgeSrc([]byte(d.Src))
+	if o.V == engine.Viol && strings.HasPrefix(d.Src, cfgcorpus.BOM) {
+		counters.Add("failing_inputs_with_bom", 1)
+		if o2 := judgeSrc([]byte(strings.TrimPrefix(d.Src, cfgcorpus.BOM))); o2.V != engine.Viol {
+			o.Class += ".only-with-leading-bom"
+		}
+	}
+	return o
+}
+
+func judgeSrc(src []byte) engine.Outcome {
 
 	// Domain: configurations that scan and parse without error diagnostics.
 	srcToks, _, lexOK := cfgcorpus.Lex(src)
@@ -176,6 +201,12 @@ func judge(c engine.Case) engine.Outcome {
 	if !bytes.Equal(src, out) {
 		counters.Add("inputs_changed_by_format", 1)
 	}
+	if bytes.HasPrefix(src, []byte(cfgcorpus.BOM)) {
+		counters.Add("inputs_with_bom_judged", 1)
+	}
+	if len(srcToks) == 1 {
+		counters.Add("inputs_without_tokens_judged", 1)
+	}
 	return engine.Pass(string(out) + "\x00" + sig.String())
 }
 
@@ -232,7 +263,9 @@ func main() {
 		Technique: "bounded exhaustive enumeration of layouts of a token-adjacency corpus; invariant (token sequence, structure, values) plus fixpoint on the real formatter",
 		Rule: "corpus verif/gen/cfgcorpus: (a) " + fmt.Sprint(len(cfgcorpus.PairBases())) + " hand-written valid configurations covering every token adjacency of the native syntax, (b) the product of " +
 			fmt.Sprint(len(cfgcorpus.Shapes())) + " expression shapes x " + fmt.Sprint(len(cfgcorpus.Positions())) + " positions x 4 comment decorations (parser-rejected combinations dropped); " +
-			"every base also with CRLF line endings. Layout deviations: each gap between adjacent tokens is replaced by each of {none, space, two spaces, tab, newline, /*c*/, #c<nl>, //c<nl>}, " +
+			"every base also with CRLF line endings; (c) file shapes: " + fmt.Sprint(len(cfgcorpus.FileShapeBases())) + " distinct texts of the products {no lead, space, two spaces, tab, newline} x {nothing, # c, // c, /* c */, '# c  ', '// c  ', '# c<tab>', #} x " +
+			fmt.Sprint(len(cfgcorpus.FileEndings)) + " file endings (degenerate files) and last item (attribute value, closing bracket / brace, heredoc end marker, inline / # / // comment also with blanks inside the comment token) x file endings " +
+			"{nothing, space, two spaces, tab, CR, LF, CRLF, blanks then LF / CRLF, LF then blanks, blank lines}, each also with CRLF line endings, with a leading UTF-8 BOM, and both (texts the parser rejects dropped). Layout deviations: each gap between adjacent tokens is replaced by each of {none, space, two spaces, tab, newline, /*c*/, #c<nl>, //c<nl>}, " +
 			"keeping the variants that still parse without errors and scan to the base's tokens plus the inserted newline/comment tokens. " +
 			"quick: " + cfgcorpus.PlanFor("quick").String() + ". thorough: " + cfgcorpus.PlanFor("thorough").String() + ". " +
 			"Non-trivial = the input is an error-free configuration; distinct = distinct (formatted text, attribute values).",
